@@ -17,8 +17,11 @@ def run(ctx):
         "for ANY sequence of blocks, and corr_C15.py checks that every real circuit is such a sequence (and, for the "
         "S_z-conserving classes, that each block sits on a verified spin pattern)",
         "documented gate matrices (coq/lib/Rsem.v)",
-        "partial: Z2SymmetryPreservingReal (Rxx Pauli rotations), TrotterUCCSD and KUpCCGSD (Pauli rotations from OpenFermion), "
-        "real-amplitude claims and total-spin claims are decided by the dense numpy sweep (sweep_C15.py) only",
+        "fixed PauliRotation gates inside a gadget (the Rxx gates of Z2SymmetryPreservingReal) are replaced, in the traced block "
+        "and in the real circuits that are segmented, by what the repository's PauliRotationDecomposeTranspiler makes of them; "
+        "that decomposition is modelled and proved for strings of any length in C01 (coq/model/PauliRot.v)",
+        "partial: TrotterUCCSD and KUpCCGSD (Pauli rotations from OpenFermion) and total-spin claims are decided by the dense "
+        "numpy sweep (sweep_C15.py) only",
     ]
     ctx.translate("gadgets", gadgets.run, os.path.join(ctx.work, "gen"), os.path.join(ctx.work, "blocks.json"))
     fingerprint.check(ctx, "packages/algo/quri_parts/algo/ansatz/symmetry_preserving.py",
